@@ -7,6 +7,8 @@ use numbat::value::Value;
 use numbat::Context;
 use serde_json::{json, Value as J};
 
+const REFRESH: usize = 300;
+
 fn prelude_ctx() -> Result<Context, String> {
     let mut ctx = new_context(&[], true);
     let r = run_input(&mut ctx, "use prelude");
@@ -64,7 +66,12 @@ fn eval(args: &[String]) -> i32 {
     let chunks: Vec<&[J]> = cases.chunks(chunk).collect();
     let results: Vec<Vec<J>> = par_map(&chunks, threads, |ch| {
         let mut ctx = base.clone();
+        let mut used = 0usize;
         ch.iter().map(|c| {
+            // every statement adds constants to the VM of the context and the constant table is limited to 2^16
+            // entries (the VM asserts): start from a fresh clone of the prelude context every REFRESH cases
+            if used >= REFRESH { ctx = base.clone(); used = 0; }
+            used += 1;
             let outs: Vec<J> = c["steps"].as_array().unwrap().iter().map(|s| step_json(&mut ctx, s.as_str().unwrap())).collect();
             json!({"id": c["id"], "r": outs})
         }).collect()
@@ -132,7 +139,10 @@ fn record(args: &[String]) -> i32 {
     let chunks: Vec<&[(usize, u32, i64, u64)]> = inputs.chunks(chunk).collect();
     let results: Vec<Vec<J>> = par_map(&chunks, threads, |chk| {
         let mut ctx = base.clone();
+        let mut used = 0usize;
         chk.iter().map(|&(ci, m, sign, big_n)| {
+            if used >= REFRESH { ctx = base.clone(); used = 0; }
+            used += 1;
             let ch = &chains[ci];
             let scale = (1u64 << m) as f64;
             let lit = format!("({}{}/{})", if sign < 0 { "-" } else { "" }, big_n, 1u64 << m);
